@@ -408,6 +408,8 @@ def report(mod, tier, seed, m, extra_cov, wall, findings, replaying=False):
             if isinstance(v, list):
                 merged_extra.setdefault(k, [])
                 merged_extra[k] = (merged_extra[k] + v)[:20]
+            elif k.startswith('max_') and isinstance(v, (int, float)):
+                merged_extra[k] = max(merged_extra.get(k, v), v)
             else:
                 merged_extra[k] = v
     if merged_extra:
